@@ -9,9 +9,10 @@ Local Arguments Z.sub : simpl never.
 
 (* ---- reachability at the OS level: runs of main(), every schedule of arrivals and steps ---- *)
 Inductive oreach (pre : Z -> bool) : ost -> Prop :=
-| oreach_main o a : bal 0 o = true -> oreach pre (os_main (boot pre) o a)
+| oreach_main tl f a ra : bal 0 (core_of f) = true -> oreach pre (os_main tl (boot pre) reg0 f a ra)
 | oreach_step s d : oreach pre s -> oreach pre (ostep d s)
-| oreach_again s o a : oreach pre s -> idle s = true -> bal 0 o = true -> oreach pre (os_main (dsp s) o a).
+| oreach_again tl s f a ra : oreach pre s -> idle s = true -> bal 0 (core_of f) = true ->
+                       oreach pre (os_main tl (dsp s) (reg s) f a ra).
 
 Definition oexec (ds : list Z) (s : ost) : ost := fold_left (fun s d => ostep d s) ds s.
 
@@ -34,7 +35,8 @@ Definition nondef (k : list hframe) : list hframe := filter (fun f => negb (h_de
 Fixpoint hs_ok (pre : Z -> bool) (h : list sframe) : Prop :=
   match h with
   | [] => True
-  | e :: r => is_reg (s_sig e) = true /\ pre (s_sig e) = false /\ ~ In (s_sig e) (busy r) /\ hs_ok pre r
+  | e :: r => (s_sig e = alarm_sig \/ (is_reg (s_sig e) = true /\ pre (s_sig e) = false /\ ~ In (s_sig e) (busy r))) /\
+              hs_ok pre r
   end.
 
 Record OInv (pre : Z -> bool) (s : ost) : Prop := mkOInv {
@@ -42,7 +44,14 @@ Record OInv (pre : Z -> bool) (s : ost) : Prop := mkOInv {
   o_link : map h_sig (nondef (stack (core s))) = running (hs s);
   o_hs   : hs_ok pre (hs s);
   o_dsp  : forall x, is_reg x = true -> dsp s x = if pre x || mem x (busy (hs s)) then DIgnore else DHandler;
-  o_acc  : forall x, count_eq x (acc s) = count_eq x (arrs (core s)) + count_eq x (entering (hs s)) }.
+  o_acc  : forall x, count_eq x (acc s) = count_eq x (arrs (core s)) + count_eq x (entering (hs s));
+  o_inst : inst (reg s) = Some O;                                   (* the running object is the registered one *)
+  o_live : Forall (fun b => b <> O) (live (reg s)) /\ nxt (reg s) <> O;
+  o_flt  : fault (reg s) = false;
+  (* SIGALRM: once setAlarm(n > 0) has been executed and no handler activation for it is in progress, the handler is installed;
+     before that the disposition is what the environment left and no activation exists *)
+  o_alarm : alarm_set (reg s) = true -> ~ In alarm_sig (busy (hs s)) -> dsp s alarm_sig = DHandler;
+  o_noalarm : alarm_set (reg s) = false -> dsp s alarm_sig = boot pre alarm_sig /\ ~ In alarm_sig (map s_sig (hs s)) }.
 
 (* ---- small facts ---- *)
 Lemma mem_In x l : mem x l = true <-> In x l.
@@ -118,17 +127,53 @@ Proof. unfold running. simpl. destruct (is_run e); reflexivity. Qed.
 Lemma entering_cons e r : entering (e :: r) = if is_enter e then s_sig e :: entering r else entering r.
 Proof. unfold entering. simpl. destruct (is_enter e); reflexivity. Qed.
 
-Lemma hs_ok_nodup pre h : hs_ok pre h -> NoDup (busy h).
+Lemma hs_ok_nodup pre h : hs_ok pre h -> NoDup (filter is_reg (busy h)).
 Proof.
   induction h as [|e r IH]; simpl; intro H; [constructor|].
-  destruct H as [_ [_ [Hn Hr]]]. rewrite busy_cons. destruct (is_enter e); [auto|].
-  constructor; auto.
+  destruct H as [Hx Hr]. rewrite busy_cons. destruct (is_enter e); [auto|]. simpl.
+  destruct (is_reg (s_sig e)) eqn:Hreg; [|auto].
+  constructor; auto. destruct Hx as [H4|[_ [_ Hn]]].
+  - rewrite H4 in Hreg. discriminate.
+  - intro Hin. apply filter_In in Hin. tauto.
 Qed.
 
-Lemma hs_ok_in pre h x : hs_ok pre h -> In x (map s_sig h) -> is_reg x = true /\ pre x = false.
+Lemma hs_ok_in pre h x : hs_ok pre h -> In x (map s_sig h) -> x = alarm_sig \/ (is_reg x = true /\ pre x = false).
 Proof.
   induction h as [|e r IH]; simpl; intros H Hin; [contradiction|].
-  destruct H as [H1 [H2 [_ Hr]]]. destruct Hin as [<-|Hin]; auto.
+  destruct H as [Hx Hr]. destruct Hin as [<-|Hin]; [tauto|auto].
+Qed.
+
+Lemma is_reg_alarm : is_reg alarm_sig = false.
+Proof. reflexivity. Qed.
+Lemma is_reg_not_alarm y : is_reg y = true -> y <> alarm_sig.
+Proof. intros H ->. discriminate. Qed.
+Lemma is_sig_cases d : is_sig d = true -> d = alarm_sig \/ is_reg d = true.
+Proof. unfold is_sig. intro H. apply orb_true_iff in H. destruct H as [H|H]; [auto|]. apply Z.eqb_eq in H. auto. Qed.
+Lemma is_sig_nz d : is_sig d = true -> d <> 0.
+Proof. intros H ->. vm_compute in H. discriminate. Qed.
+
+(* the callback's setAlarm and the main flow's setAlarm touch SIGALRM only *)
+Lemma cb_dsp_reg c r d y : y <> alarm_sig -> cb_dsp c r d y = d y.
+Proof.
+  intro H. unfold cb_dsp. destruct (rearm_now c r); [|reflexivity]. unfold upd. destruct (Z.eqb_spec y alarm_sig); [contradiction|reflexivity].
+Qed.
+Lemma objdsp_reg r d y : y <> alarm_sig -> objdsp r d y = d y.
+Proof.
+  intro H. unfold objdsp. destruct (oflow r) as [|[| | | | |] f]; try reflexivity.
+  unfold upd. destruct (Z.eqb_spec y alarm_sig); [contradiction|reflexivity].
+Qed.
+Lemma cb_alarm c r d : (rearm_now c r = true /\ cb_dsp c r d alarm_sig = DHandler /\ alarm_set (cb_reg c r) = true) \/
+                       (cb_dsp c r d = d /\ alarm_set (cb_reg c r) = alarm_set r).
+Proof.
+  unfold cb_dsp, cb_reg. simpl. destruct (rearm_now c r); [left|right; auto].
+  repeat split.
+Qed.
+Lemma objstep_alarm r r' d : objstep r = Some r' ->
+  (objdsp r d alarm_sig = DHandler /\ alarm_set r' = true) \/ (objdsp r d = d /\ alarm_set r' = alarm_set r).
+Proof.
+  unfold objstep, objdsp. destruct (oflow r) as [|[| | | | |] f]; try discriminate; intro H; inversion H; subst; clear H; simpl; auto.
+  all: try (destruct (live r); auto).
+  all: try (left; split; [|reflexivity]; unfold upd; rewrite Z.eqb_refl; reflexivity).
 Qed.
 
 Lemma busy_incl h x : In x (busy h) -> In x (map s_sig h).
@@ -141,27 +186,55 @@ Qed.
 Lemma install_boot pre x : install (boot pre x) = if pre x then DIgnore else DHandler.
 Proof. unfold boot. destruct (pre x); reflexivity. Qed.
 
-Lemma oinv_main pre o a : bal 0 o = true -> OInv pre (os_main (boot pre) o a).
+Lemma oinv_main pre tl f a ra : bal 0 (core_of f) = true -> OInv pre (os_main tl (boot pre) reg0 f a ra).
 Proof.
   intro Hb. constructor; simpl.
-  - exists o, a. split; [exact Hb|constructor].
+  - exists (core_of f), a. split; [exact Hb|constructor].
   - reflexivity.
   - exact I.
   - intros x Hx. rewrite Hx, install_boot. rewrite orb_false_r. reflexivity.
   - intro x. reflexivity.
+  - reflexivity.
+  - split; [constructor|discriminate].
+  - reflexivity.
+  - rewrite orb_false_r. intros -> _. reflexivity.
+  - rewrite orb_false_r. intros ->. simpl. auto.
 Qed.
 
-Lemma oinv_again pre s o a : OInv pre s -> hs s = [] -> bal 0 o = true -> OInv pre (os_main (dsp s) o a).
+Lemma oinv_again pre tl s f a ra : OInv pre s -> hs s = [] -> bal 0 (core_of f) = true -> OInv pre (os_main tl (dsp s) (reg s) f a ra).
 Proof.
-  intros [_ _ _ Hd _] Hh Hb. constructor; simpl.
-  - exists o, a. split; [exact Hb|constructor].
+  intros [_ _ _ Hd _ _ Hlv Hf Hal Hna] Hh Hb. rewrite Hh in *. constructor; simpl.
+  - exists (core_of f), a. split; [exact Hb|constructor].
   - reflexivity.
   - exact I.
-  - intros x Hx. rewrite Hx. rewrite (Hd x Hx), Hh. simpl. rewrite orb_false_r. destruct (pre x); reflexivity.
+  - intros x Hx. rewrite Hx. rewrite (Hd x Hx). simpl. rewrite orb_false_r. destruct (pre x); reflexivity.
   - intro x. reflexivity.
+  - reflexivity.
+  - exact Hlv.
+  - exact Hf.
+  - intros H _. destruct tl; simpl in *; [reflexivity|]. apply Hal; auto.
+  - intro H. apply orb_false_iff in H. destruct H as [-> H]. simpl. split; [apply Hna; exact H|auto].
 Qed.
 
-Ltac ocons := constructor; cbn [core dsp hs acc drp].
+(* destroying another object (or a copy of the running one) leaves the registration alone *)
+Lemma reset_other b : b <> O -> reset_inst b (Some O) = Some O.
+Proof. intro H. unfold reset_inst. destruct b; [contradiction|reflexivity]. Qed.
+
+Lemma objstep_inv r r' : inst r = Some O -> Forall (fun b => b <> O) (live r) /\ nxt r <> O -> fault r = false ->
+  objstep r = Some r' ->
+  inst r' = Some O /\ (Forall (fun b => b <> O) (live r') /\ nxt r' <> O) /\ fault r' = false.
+Proof.
+  intros Hi [Hl Hn] Hf H. unfold objstep in H. destruct (oflow r) as [|[| | | | |] fl]; try discriminate; inversion H; subst; clear H; simpl.
+  - repeat split; auto.
+  - destruct (live r) as [|b l] eqn:Hlv; simpl.
+    + repeat split; auto.
+    + inversion Hl; subst. rewrite Hi, reset_other by assumption. repeat split; auto.
+  - rewrite Hi, reset_other by assumption. repeat split; auto.
+  - repeat split; auto.
+  - repeat split; auto.
+Qed.
+
+Ltac ocons := constructor; cbn [core dsp hs acc drp reg].
 
 Lemma nondef_top c f rest e r :
   Inv c -> stack c = f :: rest -> map h_sig (nondef (f :: rest)) = running (e :: r) -> is_run e = true ->
@@ -184,29 +257,82 @@ Proof.
   destruct rest as [|g rest']; [exists f; auto|]. specialize (Hd1 ltac:(discriminate)). congruence.
 Qed.
 
+(* hs = []: a step of the core (main flow or the nested call of unblockSignals) with any harmless registration state and
+   any change of SIGALRM's disposition that respects the alarm invariant *)
+Lemma oinv_core_step pre s d' r' : OInv pre s -> hs s = [] ->
+  (forall y, y <> alarm_sig -> d' y = dsp s y) ->
+  inst r' = Some O -> Forall (fun b => b <> O) (live r') /\ nxt r' <> O -> fault r' = false ->
+  (alarm_set r' = true -> d' alarm_sig = DHandler) -> (alarm_set r' = false -> d' alarm_sig = boot pre alarm_sig) ->
+  OInv pre (mkO (step true 0 (core s)) d' [] (acc s) (drp s) r').
+Proof.
+  intros [[o [a [Hb Hr]]] Hl Hh Hd Ha _ _ _ _ _] Hhs Hd' Hi' Hl' Hf' Ha1 Ha2.
+  pose proof (reach_inv _ _ _ Hb Hr) as HI. rewrite Hhs in *.
+  ocons; [ | |exact I| | |exact Hi'|exact Hl'|exact Hf'| | ].
+  - exists o, a. split; [exact Hb|constructor; exact Hr].
+  - change (running []) with (@nil Z) in *.
+    destruct (nondef_none _ HI Hl) as [Hs|[f [Hs Hf]]].
+    + destruct (step0_nil _ Hs) as [H|[g [H Hg]]]; rewrite H; unfold nondef; simpl; [reflexivity|].
+      rewrite Hg. reflexivity.
+    + destruct (step0_cons true _ _ _ Hs) as [H|[f' [H [_ Hf'']]]]; rewrite H; unfold nondef; simpl; [reflexivity|].
+      rewrite Hf'', Hf. reflexivity.
+  - intros y Hy. rewrite Hd' by (apply is_reg_not_alarm; exact Hy). apply Hd. exact Hy.
+  - intro x. rewrite step0_arrs. apply Ha.
+  - intros H _. auto.
+  - intro H. split; [auto|simpl; auto].
+Qed.
+
+(* the alarm invariant under the callback's own setAlarm, for a handler stack with the same numbers / busy numbers *)
+Lemma alarm_cb pre c r d h h' :
+  busy h' = busy h -> map s_sig h' = map s_sig h ->
+  (alarm_set r = true -> ~ In alarm_sig (busy h) -> d alarm_sig = DHandler) ->
+  (alarm_set r = false -> d alarm_sig = boot pre alarm_sig /\ ~ In alarm_sig (map s_sig h)) ->
+  (alarm_set (cb_reg c r) = true -> ~ In alarm_sig (busy h') -> cb_dsp c r d alarm_sig = DHandler) /\
+  (alarm_set (cb_reg c r) = false -> cb_dsp c r d alarm_sig = boot pre alarm_sig /\ ~ In alarm_sig (map s_sig h')).
+Proof.
+  intros Hb Hm H1 H2. rewrite Hb, Hm.
+  destruct (cb_alarm c r d) as [[_ [Hd Hs]]|[Hd Hs]]; rewrite Hs.
+  - split; [auto|discriminate].
+  - rewrite Hd. auto.
+Qed.
+
 Lemma oinv_step pre d s : OInv pre s -> OInv pre (ostep d s).
 Proof.
-  intros [[o [a [Hb Hr]]] Hl Hh Hd Ha].
+  intros HO. pose proof HO as [[o [a [Hb Hr]]] Hl Hh Hd Ha Hin Hlv Hft Hal Hna].
   pose proof (reach_inv _ _ _ Hb Hr) as HI.
   unfold ostep. destruct (Z.eqb_spec d 0) as [Hd0|Hd0].
   - destruct (hs s) as [|e r] eqn:Hhs.
     + (* main flow / deferred activation *)
-      ocons.
-      * exists o, a. split; [exact Hb|constructor; exact Hr].
-      * change (running []) with (@nil Z) in *.
-        destruct (nondef_none _ HI Hl) as [Hs|[f [Hs Hf]]].
-        -- destruct (step0_nil _ Hs) as [H|[g [H Hg]]]; rewrite H; unfold nondef; simpl; [reflexivity|].
-           rewrite Hg. reflexivity.
-        -- destruct (step0_cons true _ _ _ Hs) as [H|[f' [H [_ Hf']]]]; rewrite H; unfold nondef; simpl; [reflexivity|].
-           rewrite Hf', Hf. reflexivity.
-      * exact I.
-      * exact Hd.
-      * intro x. rewrite step0_arrs. apply Ha.
-    + destruct e as [x ph]. simpl in Hh. destruct Hh as [Hreg [Hpre [Hnb Hok]]]. cbn [s_ph s_sig].
+      destruct (at_op (core s)).
+      * destruct (objstep (reg s)) as [r'|] eqn:Ho.
+        -- destruct (objstep_inv _ _ Hin Hlv Hft Ho) as [H1 [H2 H3]].
+           ocons; auto.
+           ++ exists o, a. auto.
+           ++ intros y Hy. rewrite objdsp_reg by (apply is_reg_not_alarm; exact Hy). apply Hd. exact Hy.
+           ++ intros Hs _. destruct (objstep_alarm _ _ (dsp s) Ho) as [[Hx _]|[Hx Hy]]; [exact Hx|].
+              rewrite Hx. apply Hal; [congruence|simpl; auto].
+           ++ intro Hs. destruct (objstep_alarm _ _ (dsp s) Ho) as [[_ Hy]|[Hx Hy]]; [congruence|].
+              rewrite Hx. apply Hna. congruence.
+        -- assert (B1 : alarm_set (pop_flow (reg s)) = true -> dsp s alarm_sig = DHandler)
+             by (intro H; apply Hal; [exact H|simpl; auto]).
+           assert (B2 : alarm_set (pop_flow (reg s)) = false -> dsp s alarm_sig = boot pre alarm_sig)
+             by (intro H; apply Hna; exact H).
+           apply oinv_core_step; auto.
+      * destruct (alarm_cb pre (core s) (reg s) (dsp s) [] [] eq_refl eq_refl Hal Hna) as [A1 A2].
+        assert (B0 : forall y, y <> alarm_sig -> cb_dsp (core s) (reg s) (dsp s) y = dsp s y)
+          by (intros y Hy; apply cb_dsp_reg; exact Hy).
+        assert (B1 : alarm_set (cb_reg (core s) (reg s)) = true -> cb_dsp (core s) (reg s) (dsp s) alarm_sig = DHandler)
+          by (intro H; apply A1; [exact H|simpl; auto]).
+        assert (B2 : alarm_set (cb_reg (core s) (reg s)) = false -> cb_dsp (core s) (reg s) (dsp s) alarm_sig = boot pre alarm_sig)
+          by (intro H; apply A2; exact H).
+        apply oinv_core_step; auto.
+    + destruct e as [x ph]. simpl in Hh. destruct Hh as [Hx Hok]. cbn [s_ph s_sig].
+      assert (Hnz : x <> 0).
+      { destruct Hx as [->|[Hreg _]]; [discriminate|apply is_reg_nz; exact Hreg]. }
       destruct ph.
-      * (* PEnter: signal(x, SIG_IGN); processSignal(x) *)
-        ocons.
-        -- exists o, a. split; [exact Hb|]. rewrite <- (step_arrive true) by (apply is_reg_nz; exact Hreg).
+      * (* PEnter: signal(x, SIG_IGN); getInstance()->processSignal(x) *)
+        rewrite Hin.
+        ocons; [ | | | | |exact Hin|exact Hlv|exact Hft| | ].
+        -- exists o, a. split; [exact Hb|]. rewrite <- (step_arrive true) by exact Hnz.
            constructor. exact Hr.
         -- rewrite running_cons in Hl |- *. simpl in Hl |- *. unfold nondef in Hl |- *. simpl. rewrite Hl. reflexivity.
         -- simpl. auto.
@@ -214,59 +340,81 @@ Proof.
            destruct (Z.eqb_spec y x) as [->|Hne]; simpl; [rewrite orb_true_r|]; reflexivity.
         -- intro y. rewrite (Ha y), entering_cons. simpl. rewrite entering_cons. simpl.
            rewrite count_eq_app. simpl. lia.
+        -- rewrite busy_cons. simpl. intros Hs Hn. unfold upd.
+           destruct (Z.eqb_spec alarm_sig x) as [He|He]; [exfalso; apply Hn; left; auto|].
+           apply Hal; [exact Hs|]. rewrite busy_cons. simpl. tauto.
+        -- intro Hs. destruct (Hna Hs) as [H1 H2]. simpl in H2. split; [|simpl; exact H2].
+           unfold upd. destruct (Z.eqb_spec alarm_sig x) as [He|He]; [exfalso; apply H2; left; auto|exact H1].
       * (* PRun: one step of its processSignal activation *)
         destruct (stack (core s)) as [|f rest] eqn:Hs.
         { exfalso. rewrite running_cons in Hl. simpl in Hl. discriminate. }
         destruct (nondef_top _ _ _ _ _ HI Hs Hl eq_refl) as [Hdf [Hsg Hrest]]. simpl in Hsg.
+        assert (Hdy : forall y, is_reg y = true ->
+                  cb_dsp (core s) (reg s) (dsp s) y = (if pre y || mem y (busy (mkS x PRun :: r)) then DIgnore else DHandler)).
+        { intros y Hy. rewrite cb_dsp_reg by (apply is_reg_not_alarm; exact Hy). apply Hd. exact Hy. }
         destruct (step0_cons true _ _ _ Hs) as [H|[f' [H [Hs' Hd']]]].
-        -- ocons; rewrite ?H.
+        -- destruct (alarm_cb pre (core s) (reg s) (dsp s) (mkS x PRun :: r) (mkS x PExit :: r) eq_refl eq_refl Hal Hna) as [A1 A2].
+           ocons; rewrite ?H; [ | | | | |exact Hin|exact Hlv|exact Hft| | ].
            ++ exists o, a. split; [exact Hb|constructor; exact Hr].
            ++ simpl. destruct (Nat.ltb_spec (length rest) (S (length rest))); [|lia].
               rewrite running_cons. simpl. exact Hrest.
            ++ simpl. destruct (Nat.ltb_spec (length rest) (S (length rest))); [|lia]. simpl. auto.
            ++ simpl. destruct (Nat.ltb_spec (length rest) (S (length rest))); [|lia].
-              intros y Hy. rewrite (Hd y Hy). rewrite !busy_cons. reflexivity.
+              intros y Hy. rewrite (Hdy y Hy). rewrite !busy_cons. reflexivity.
            ++ simpl. destruct (Nat.ltb_spec (length rest) (S (length rest))); [|lia].
               intro y. rewrite (Ha y). rewrite step0_arrs. rewrite !entering_cons. reflexivity.
-        -- ocons; rewrite ?H.
+           ++ simpl length. destruct (Nat.ltb_spec (length rest) (S (length rest))); [|lia]. exact A1.
+           ++ simpl length. destruct (Nat.ltb_spec (length rest) (S (length rest))); [|lia]. exact A2.
+        -- destruct (alarm_cb pre (core s) (reg s) (dsp s) (mkS x PRun :: r) (mkS x PRun :: r) eq_refl eq_refl Hal Hna) as [A1 A2].
+           ocons; rewrite ?H; [ | | | | |exact Hin|exact Hlv|exact Hft| | ].
            ++ exists o, a. split; [exact Hb|constructor; exact Hr].
            ++ simpl. destruct (Nat.ltb_spec (S (length rest)) (S (length rest))); [lia|].
               rewrite <- Hl. unfold nondef. simpl. rewrite Hd', Hdf. simpl. rewrite Hs'. reflexivity.
            ++ simpl. destruct (Nat.ltb_spec (S (length rest)) (S (length rest))); [lia|]. simpl. auto.
-           ++ simpl. destruct (Nat.ltb_spec (S (length rest)) (S (length rest))); [lia|]. exact Hd.
+           ++ simpl. destruct (Nat.ltb_spec (S (length rest)) (S (length rest))); [lia|]. exact Hdy.
            ++ simpl. destruct (Nat.ltb_spec (S (length rest)) (S (length rest))); [lia|].
               intro y. rewrite step0_arrs. apply Ha.
+           ++ simpl length. destruct (Nat.ltb_spec (S (length rest)) (S (length rest))); [lia|]. exact A1.
+           ++ simpl length. destruct (Nat.ltb_spec (S (length rest)) (S (length rest))); [lia|]. exact A2.
       * (* PExit: signal(x, sigHandler) *)
-        ocons.
+        ocons; [ | | | | |exact Hin|exact Hlv|exact Hft| | ].
         -- exists o, a. split; [exact Hb|exact Hr].
         -- rewrite running_cons in Hl. simpl in Hl. exact Hl.
         -- exact Hok.
         -- intros y Hy. unfold upd. rewrite (Hd y Hy), busy_cons. simpl.
            destruct (Z.eqb_spec y x) as [->|Hne].
-           ++ rewrite Hpre. apply mem_false in Hnb. rewrite Hnb. reflexivity.
+           ++ destruct Hx as [H4|[_ [Hpre Hnb]]]; [rewrite H4 in Hy; discriminate|].
+              rewrite Hpre. apply mem_false in Hnb. rewrite Hnb. reflexivity.
            ++ unfold mem. simpl. destruct (Z.eqb_spec y x); [contradiction|]. reflexivity.
         -- intro y. rewrite (Ha y), entering_cons. reflexivity.
+        -- intros Hs Hn. unfold upd. destruct (Z.eqb_spec alarm_sig x) as [He|He]; [reflexivity|].
+           apply Hal; [exact Hs|]. rewrite busy_cons. simpl. intros [H|H]; [congruence|contradiction].
+        -- intro Hs. destruct (Hna Hs) as [H1 H2]. simpl in H2. split; [|tauto].
+           unfold upd. destruct (Z.eqb_spec alarm_sig x) as [He|He]; [exfalso; apply H2; left; auto|exact H1].
   - (* OS-level arrival *)
-    destruct (is_reg d) eqn:Hreg; [|constructor; eauto].
-    pose proof (Hd d Hreg) as Hdd.
+    destruct (is_sig d) eqn:Hsig; [|exact HO].
     destruct (dsp s d) eqn:Hds.
-    + constructor; eauto.
+    + exact HO.
     + (* the handler is installed: sigHandler starts *)
-      destruct (pre d || mem d (busy (hs s))) eqn:Hc; [discriminate|].
-      apply orb_false_iff in Hc. destruct Hc as [Hp Hm]. apply mem_false in Hm.
-      ocons.
+      ocons; [ | | | | |exact Hin|exact Hlv|exact Hft| | ].
       * eauto.
       * rewrite running_cons. exact Hl.
-      * simpl. auto.
+      * simpl. split; [|exact Hh]. destruct (is_sig_cases _ Hsig) as [H4|Hreg]; [left; exact H4|right].
+        pose proof (Hd d Hreg) as Hdd. rewrite Hds in Hdd.
+        destruct (pre d || mem d (busy (hs s))) eqn:Hc; [discriminate|].
+        apply orb_false_iff in Hc. destruct Hc as [Hp Hm]. apply mem_false in Hm. auto.
       * intros y Hy. rewrite busy_cons. simpl. apply Hd. exact Hy.
       * intro y. rewrite count_eq_app, entering_cons. simpl. rewrite (Ha y). lia.
+      * rewrite busy_cons. simpl. exact Hal.
+      * intro Hs. destruct (Hna Hs) as [H1 H2]. split; [exact H1|]. simpl. intros [H|H]; [|contradiction].
+        subst d. rewrite H1 in Hds. unfold boot in Hds. destruct (pre alarm_sig); discriminate.
     + (* ignored: discarded *)
-      constructor; simpl; eauto.
+      ocons; eauto.
 Qed.
 
 Theorem oreach_inv pre s : oreach pre s -> OInv pre s.
 Proof.
-  induction 1 as [o a Hb|s d _ IH|s o a _ IH Hi Hb].
+  induction 1 as [tl f a ra Hb|s d _ IH|tl s f a ra _ IH Hi Hb].
   - apply oinv_main. exact Hb.
   - apply oinv_step. exact IH.
   - apply oinv_again; [exact IH| |exact Hb].
